@@ -40,10 +40,12 @@ def expand(node: Node):
     references = list()
     node.find_all_descendants(names.REFERENCES, references)
     ids = _register_ids(node)
+    # Resolve every reference before changing anything, so a failure leaves the tree as it was
     for reference in references:
         if reference.content not in ids:
             msg = f"ID not found for REFERENCE '{reference}'"
             raise ValueError(msg)
+    for reference in references:
         source_node = ids[reference.content]
         destination_node = reference.parent
         destination_node.remove_child(reference)
